@@ -239,6 +239,119 @@ for _p in POSITIONS:
 
 
 # ---------------------------------------------------------------------------------------
+# O1r: the same with every file given as PHYSICAL lines and read by the real FortranReader: what the reader has buffered for a file
+# that is rejected half-way (statements passed back, `;`-separated statements, documentation lines) never reaches another file
+# ---------------------------------------------------------------------------------------
+GOOD_PHYS = {"c.f90": ["!! Utilities", "module ma", "  !! A valid module", "  type ta", "    integer :: c", "      !! a component", "  end type ta", "contains",
+                       "  subroutine foo()", "    !! does foo", "  end subroutine foo", "end module ma"],
+             "k.f90": ["program pk", "  !! the program", "  use ma", "  type(ta) :: v", "  call foo(); call bar()", "end program pk",
+                       "subroutine bar()", "  !! does bar", "end subroutine bar"]}
+BAD_PHYS = [
+    ["module mb", "  abstract interface apply", "    subroutine callback(x)", "    end subroutine callback", "  end interface apply", "end module mb"],
+    ["module mb", "  integer :: answer = 42 !> the answer", "end module mb"],
+    ["module mb", "  integer :: x; integer :: y; end module mb; end module mb; subroutine late()", "end subroutine late"],
+    ["module mb", "  !> documentation of the next entity", "  end module mb", "end module mb"],
+    ["subroutine foo()", "  !! rejected twin of foo", "  contains", "  contains", "end subroutine foo", "subroutine zz()"],
+    ["module mb", "  integer :: n &", "  !! a doc line inside a continuation", "   & = 3", "  type(", "end module mb"],
+    ["  & stray continuation", "module mb", "end module mb"],
+    ["module mb", "contains", "subroutine s(a) ; integer a ; end subroutine s ; end module mb ; end"],
+]
+
+
+def _doc_observe(name):
+    base = _observe_factory(name)
+
+    def observe(p):
+        acc, leaked, shape, obs = base(p)
+        docs = []
+        for attr in LISTS:
+            for e in getattr(p, attr):
+                if _fname(e) != name:
+                    docs.append((attr, str(e.name), tuple(str(x) for x in (getattr(e, "doc_list", None) or []))))
+                    for v in list(getattr(e, "variables", None) or []):
+                        docs.append((attr, str(e.name) + "%" + str(v.name), tuple(str(x) for x in (getattr(v, "doc_list", None) or []))))
+        return acc, leaked, shape, (obs, tuple(docs))
+    return observe
+
+
+def _run_phys(files, name, msgs):
+    import ford.sourceform as sf
+    import ford.fortran_project as fp
+    old, oldw = sf.namelist, fp.warn
+    sf.namelist = sf.NameSelector()
+    fp.warn = lambda m, *a, **k: msgs.append(str(m))
+    try:
+        with contextlib.redirect_stdout(io.StringIO()), contextlib.redirect_stderr(io.StringIO()):
+            p = parserh.project_concrete(files, physical=tuple(files), dbg=True, display=["public", "private", "protected"])
+            return _doc_observe(name)(p)
+    finally:
+        sf.namelist, fp.warn = old, oldw
+
+
+def replay_phys_containment(w):
+    name, lines = w["extra_name"], list(BAD_PHYS[w["bad"]])
+    msgs = []
+    try:
+        with_extra = _run_phys(dict({k: list(v) for k, v in GOOD_PHYS.items()}, **{name: lines}), name, msgs)
+        without = _run_phys({k: list(v) for k, v in GOOD_PHYS.items()}, name, [])
+    except Exception as ex:  # noqa - FORD itself aborted
+        return True, {"extra file": name, "lines": lines, "ford aborted with": repr(ex)[:200]}
+    acc, leaked, shape, obs = with_extra
+    if acc:
+        return False, {"extra file": name, "lines": lines, "note": "FORD accepts this file: no requirement"}
+    named = any(name in m for m in msgs)
+    bad = bool(leaked) or shape != without[2] or obs != without[3] or not named
+    return bad, {"extra file": name, "lines": lines, "diagnostic names the file": named, "entities of the rejected file registered": list(leaked),
+                 "other files (with extra)": [shape, obs], "other files (without)": [without[2], without[3]]}
+
+
+@obligation("C20", "O1r.containment.through-the-reader", engine="SX(CV)", timeout=900)
+def phys_containment(ctx):
+    """two valid documented files plus one of a table of files rejected half-way (by the parser with statements still buffered in the
+    reader, or by the reader itself), read first, between or last by the real FortranReader: the rejected file is named in a diagnostic and
+    the other files' entities, names, identifiers, references and documentation lines equal those of the project without it"""
+    import ford.fortran_project as fp
+    import ford.reader as rd
+
+    ctx.encode_fn(fp.Project.__init__)
+    ctx.encode_fn(rd.FortranReader.__init__)
+    ctx.encode_fn(rd.FortranReader.__next__)
+    ctx.encode_fn(rd.FortranReader.pass_back)
+    ctx.bounds.update({"rejected files": len(BAD_PHYS), "positions": list(POSITIONS.values())})
+    ctx.stubs.append("python-level run per (file, position): the reader works on concrete text; ford.console.warn replaced by a recorder")
+
+    def h(E):
+        b = CV.choice(E, "bad", list(range(len(BAD_PHYS)))).concretize()
+        name = CV.choice(E, "extra_name", sorted(POSITIONS.values())).concretize()
+        snap = {"bad": b, "extra_name": name}
+        E.e.snapshot = lambda m: dict(snap)
+        from fv import patch as _p
+        with _p.suspended():
+            bad, detail = replay_phys_containment(snap)
+        E.reachable("ran")
+        if "note" in detail:
+            E.reachable("accepted")
+            return
+        E.reachable("rejected")
+        E.require(not bad, "a file rejected half-way disturbs the other files (or is not reported)")
+
+    E = sym.Engine(ctx, max_paths=500, incremental=True)
+    found = E.explore(h)
+    seen = set()
+    for (label, m, pc), snap in zip(found, E.snapshots):
+        if not snap or snap["bad"] in seen:
+            continue
+        seen.add(snap["bad"])
+        ctx.report(label, snap, replay_phys_containment)
+    for lab in ("ran", "rejected"):
+        if E.reached.get(lab):
+            ctx.twins += 1
+        else:
+            ctx.inconclusive.append(f"vacuity: '{lab}' never reached")
+    ctx.sample({"paths": E.paths, "rejected": E.reached.get("rejected"), "accepted": E.reached.get("accepted")})
+
+
+# ---------------------------------------------------------------------------------------
 # O2: "never hangs" — no regular expression FORD applies to source lines has an unbounded loop whose body is ambiguous (one iteration can
 # also be read as two or more) AND that is followed by something that can fail: that is what makes a backtracking matcher exponential
 # ---------------------------------------------------------------------------------------
